@@ -197,3 +197,26 @@ func VerifC13Window() {
 	check("c13.win."+t.Name, dec, buf)
 	rt.Reach("c13.win")
 }
+
+// VerifC13SparseSigs: the sparse signature decoder with the whole payload
+// present: n slots (0..maxSlots), an arbitrary mask (including set padding
+// bits), and enough arbitrary bytes for every signature the mask can announce.
+func VerifC13SparseSigs() {
+	n := rt.Choice(rt.Bound("maxSlots", 9) + 1)
+	maskLen := (n + 7) / 8
+	buf := rt.NondetBytes(maskLen + 64*(8*maskLen) + 2)
+	d := Decoder{Name: "SparseSigsFull", Run: func(r io.Reader) error {
+		sigs := make([]wallet.Sig, n)
+		err := wallet.DecodeSparseSigs(r, &sigs)
+		if err == nil {
+			rt.Assert("c13.sparse.length-kept", len(sigs) == n)
+			for i, s := range sigs {
+				set := buf[i/8]&(1<<(uint(i)%8)) != 0
+				rt.Assert("c13.sparse.slot-iff-bit", (s != nil) == set)
+			}
+		}
+		return err
+	}}
+	check("c13.sparse", d, buf)
+	rt.Reach("c13.sparse")
+}
